@@ -169,9 +169,8 @@ static Rational LPFreadValue(char*& pos, SPxOut* spxout, const int lineno = -1)
 {
    assert(LPFisValue(pos));
 
-   char        tmp[SOPLEX_LPF_MAX_LINE_LEN];
+   std::string tmp;
    const char* s = pos;
-   char*       t;
    Rational        value = 1;
    bool        has_digits = false;
    bool        has_emptyexponent = false;
@@ -256,14 +255,13 @@ static Rational LPFreadValue(char*& pos, SPxOut* spxout, const int lineno = -1)
       value = (*pos == '-') ? -1 : 1;
    else
    {
-      for(t = tmp; pos != s; pos++)
-         *t++ = *pos;
-
-      *t = '\0';
+      // the token may be longer than any fixed-size buffer
+      tmp.assign((const char*)pos, s);
+      pos += s - pos;
 
       try
       {
-         value = ratFromString(tmp);
+         value = ratFromString(tmp.c_str());
       }
       catch(const std::exception& e)
       {
@@ -298,19 +296,17 @@ static int LPFreadColName(char*& pos, NameSet* colnames, LPColSetBase<Rational>&
    assert(LPFisColName(pos));
    assert(colnames != nullptr);
 
-   char        name[SOPLEX_LPF_MAX_LINE_LEN];
    const char* s = pos;
-   int         i;
    int         colidx;
 
    // These are the characters that are not allowed in a column name.
    while((strchr("+-.<>= ", *s) == nullptr) && (*s != '\0'))
       s++;
 
-   for(i = 0; pos != s; i++, pos++)
-      name[i] = *pos;
-
-   name[i] = '\0';
+   // the name may be longer than any fixed-size buffer
+   const std::string namestr((const char*)pos, s);
+   const char* name = namestr.c_str();
+   pos += s - pos;
 
    if((colidx = colnames->number(name)) < 0)
    {
